@@ -18,6 +18,13 @@ for f in sorted(glob.glob(os.path.join(V, 'seeded/results/*.log')), key=os.path.
         m = re.match(r'^\s+violation candidate: property=\S+ scenario=(\S+) run=\d+ class=(\S+) key=(\S+)', line)
         if m and cur and not res[cur]['how']:
             res[cur]['how'] = '%s: %s / %s' % (m.group(1), m.group(2), m.group(3)[:60])
+# mutants that were run and then dropped from tools/mutants.py, with the reason (they stay visible here)
+DROPPED = {
+ 'c09_range_parts_unchecked': 'not observable: reads parts[1] of a 1-element Array<String>, i.e. an unconstructed element inside the allocated capacity (invisible to ASan), whose zero length makes the later .ok() test skip it; no behaviour changes. An honest blind spot of byte-granular heap checking, not a property violation the check could see',
+ 'c09_readline_cap_removed': 'equivalent for C09: the 16000-byte line cap is a resource guard; without it a long line is just a long line and every clause of the property still holds',
+ 'c10_readbody_size_not_decremented': 'equivalent: "currentsize >= size" with constant size is the same predicate as decrementing size',
+ 'c18_ini_modified_not_set_for_new_section': 'equivalent: set() has already marked the file modified',
+}
 rows = []
 for name in order:
     r = res[name]
@@ -27,6 +34,8 @@ for name in order:
         mp = os.path.join(V, name, 'meta.json')
         if os.path.exists(mp):
             what = json.load(open(mp))['what']
+    if name in DROPPED:
+        r['verdict'] = 'dropped'; r['how'] = DROPPED[name]
     rows.append((r['prop'], name, kind, r['verdict'], r['how'], what))
 rows.sort(key=lambda x: (x[0], x[2], x[1]))
 print('| prop | change | kind | verdict | first violation reported (scenario: class / key) |')
@@ -34,5 +43,5 @@ print('|------|--------|------|---------|---------------------------------------
 for p, n, k, v, h, w in rows:
     label = n + (' — ' + w if w else '')
     print('| %s | %s | %s | %s | %s |' % (p, label.replace('|', '/'), k, v.lower(), h.replace('|', '/')))
-c = sum(1 for r in rows if r[3] == 'CAUGHT'); t = len(rows)
-print('\n%d of %d changes caught by the quick check of their property.' % (c, t))
+c = sum(1 for r in rows if r[3] == 'CAUGHT'); d = sum(1 for r in rows if r[3] == 'dropped'); t = len(rows)
+print('\n%d of %d changes caught by the quick check of their property; %d dropped as equivalent or unobservable (reasons in the table); %d missed.' % (c, t, d, t - c - d))
